@@ -817,6 +817,296 @@ fn constructed_values(rng: &mut Rng, thorough: bool) -> Vec<(String, &'static st
   v
 }
 
+// ---------------------------------------------------------------------------------------------
+// family `siblings`: literals that share a long prefix (or a long suffix) and differ only in a few
+// characters, evaluated one after the other in one thread
+//
+// Every other family evaluates each text on its own. Here groups of three texts that differ only in
+// their last 1..8 characters (fraction digits, sign / hours / minutes / seconds of the offset, the tail of
+// a zone name among real IANA names with a common directory, the last designator of a duration), in a few
+// leading characters, or only in the function they are given to, are evaluated in the order A, B, A, C, B —
+// once as five separate evaluations and once as one list expression — and EVERY answer is judged against
+// the value the Lean specification gives to that very text. A conversion that remembers, truncates or
+// otherwise confuses texts shows up as a sibling's value (or null) in place of the text's own.
+
+#[derive(Clone, Debug)]
+struct Sib {
+  kind: &'static str, // date time dt dur at
+  text: String,
+}
+
+fn sib_expr(s: &Sib) -> String {
+  if s.kind == "at" {
+    format!("@\"{}\"", s.text)
+  } else {
+    format!("{}(\"{}\")", fn_of(s.kind), s.text)
+  }
+}
+
+/// Evaluates FEEL text in a thread of its own (nothing an earlier evaluation may have left behind in
+/// this thread is visible there).
+fn feel_fresh(text: &str) -> String {
+  let t = text.to_string();
+  std::thread::spawn(move || feel(&t)).join().unwrap_or_else(|_| "(panic thread)".to_string())
+}
+
+fn digits(rng: &mut Rng, n: usize) -> String {
+  (0..n).map(|_| char::from(b'0' + rng.below(10) as u8)).collect()
+}
+
+/// Three distinct digit strings of length `k`.
+fn three_digit_tails(rng: &mut Rng, k: usize) -> Vec<String> {
+  let mut v: Vec<String> = vec![];
+  while v.len() < 3 {
+    let d = match (v.len(), rng.below(4)) {
+      (1, 0) => "0".repeat(k),
+      (2, 0) => "9".repeat(k),
+      _ => digits(rng, k),
+    };
+    if !v.contains(&d) {
+      v.push(d);
+    }
+  }
+  v
+}
+
+/// The windows A, B, C taken from a list of tails: one for three, every cyclic one for more.
+fn windows(tails: &[String]) -> Vec<[String; 3]> {
+  let n = tails.len();
+  if n < 3 {
+    return vec![];
+  }
+  let count = if n == 3 { 1 } else { n };
+  (0..count).map(|i| [tails[i].clone(), tails[(i + 1) % n].clone(), tails[(i + 2) % n].clone()]).collect()
+}
+
+/// Zone names that share a long prefix: the members of the three-level directories in full (plus made-up
+/// members), and runs of three neighbours of the sorted list of all identifiers with a long common prefix.
+fn zone_windows(rng: &mut Rng, thorough: bool) -> Vec<[String; 3]> {
+  let mut out: Vec<[String; 3]> = vec![];
+  for dir in ["America/Indiana/", "America/Argentina/", "America/North_Dakota/", "America/Kentucky/"] {
+    let mut names: Vec<String> = IANA_ZONES.iter().filter(|n| n.starts_with(dir)).map(|n| n.to_string()).collect();
+    // made-up members of the same directory: a real name cut, extended and with its last letter replaced
+    let first = names[0].clone();
+    let last = names[names.len() - 1].clone();
+    names.push(format!("{}x", first));
+    names.insert(1, first[..first.len() - 1].to_string());
+    names.push(format!("{}z", &last[..last.len() - 1]));
+    names.push(format!("{}Nowhere", dir));
+    out.extend(windows(&names));
+  }
+  let mut sorted: Vec<&str> = IANA_ZONES.to_vec();
+  sorted.sort();
+  let lcp = |a: &str, b: &str| a.bytes().zip(b.bytes()).take_while(|(x, y)| x == y).count();
+  let mut near: Vec<[String; 3]> = vec![];
+  for w in sorted.windows(3) {
+    let p = lcp(w[0], w[1]).min(lcp(w[1], w[2]));
+    if p >= 9 && w.iter().all(|n| n.len() - p <= 8) && !w[0].starts_with("America/Indiana/") && !w[0].starts_with("America/Argentina/") {
+      near.push([w[0].to_string(), w[1].to_string(), w[2].to_string()]);
+    }
+  }
+  let keep = if thorough { near.len() } else { 40 };
+  while near.len() > keep {
+    let i = rng.below(near.len() as u64) as usize;
+    near.remove(i);
+  }
+  out.extend(near);
+  out
+}
+
+fn sibling_groups(rng: &mut Rng, thorough: bool) -> Vec<(&'static str, Vec<Sib>)> {
+  let mut gs: Vec<(&'static str, Vec<Sib>)> = vec![];
+  let reps = if thorough { 4 } else { 1 };
+  let dates = ["2021-10-11", "-2021-10-11", "1999-12-31", "123456-10-11", "-999999999-12-31", "999999999-01-01", "0044-03-15"];
+  let dt_head = |rng: &mut Rng| format!("{}T{:02}:{:02}:{:02}", rng.pick(&dates), rng.range(3, 23), rng.range(0, 59), rng.range(0, 59));
+  let t_head = |rng: &mut Rng| format!("{:02}:{:02}:{:02}", rng.range(3, 23), rng.range(0, 59), rng.range(0, 59));
+  let group = |gs: &mut Vec<(&'static str, Vec<Sib>)>, label: &'static str, kind: &'static str, head: &str, tails: &[String; 3], suffix: &str| {
+    gs.push((label, tails.iter().map(|t| Sib { kind, text: format!("{}{}{}", head, t, suffix) }).collect()));
+  };
+  // ---- 1. the last 1..8 digits of the fraction (nothing after them, or a fixed zone after them)
+  let suffixes = ["", "", "Z", "+05:30", "-11:45", "@Europe/Warsaw", "@America/Argentina/Buenos_Aires", "@America/North_Dakota/New_Salem"];
+  for _ in 0..reps {
+    for k in 1..=8usize {
+      for suffix in suffixes {
+        for kind in ["dt", "time"] {
+          // common digits before the differing ones: the fraction has k..9 digits, sometimes more
+          let common = match rng.below(4) {
+            0 => 0,
+            1 => 9 - k,
+            2 => rng.range(0, (9 - k) as i64) as usize,
+            _ => rng.range(0, 14) as usize,
+          };
+          let head = format!("{}.{}", if kind == "dt" { dt_head(rng) } else { t_head(rng) }, digits(rng, common));
+          let tails = three_digit_tails(rng, k);
+          group(&mut gs, "fraction", kind, &head, &[tails[0].clone(), tails[1].clone(), tails[2].clone()], suffix);
+        }
+      }
+    }
+  }
+  // ---- 2. the offset: minutes, hours, sign, seconds (valid and invalid ones)
+  let offset_sets: Vec<(&'static str, Vec<&'static str>)> = vec![
+    ("offset:minutes", vec!["+05:00", "+05:30", "+05:45", "+05:59", "+05:60", "+05:99", "+05:01"]),
+    ("offset:hours", vec!["+04:30", "+05:30", "+14:30", "+15:30", "+00:30", "+10:30", "+99:30"]),
+    ("offset:sign", vec!["+05:30", "-05:30", "+05:31", "-05:31"]),
+    ("offset:sign-hour", vec!["-14:00", "+14:00", "-04:00", "+04:00", "-00:00", "+00:00"]),
+    ("offset:seconds", vec!["+05:30:15", "+05:30:45", "+05:30:59", "+05:30:60", "-05:30:15", "+05:30:00"]),
+    ("offset:zulu", vec!["Z", "z", "", "Y"]),
+  ];
+  for _ in 0..reps {
+    for (label, set) in &offset_sets {
+      let tails: Vec<String> = set.iter().map(|s| s.to_string()).collect();
+      for w in windows(&tails) {
+        for kind in ["dt", "time"] {
+          let flen = *rng.pick(&[0usize, 0, 3, 6, 8, 9, 9, 12, 20]);
+          let head = format!("{}{}{}", if kind == "dt" { dt_head(rng) } else { t_head(rng) }, if flen > 0 { "." } else { "" }, digits(rng, flen));
+          group(&mut gs, label, kind, &head, &w, "");
+        }
+      }
+    }
+  }
+  // ---- 3. the tail of the zone name
+  for w in zone_windows(rng, thorough) {
+    for kind in ["dt", "time", "dt"] {
+      let flen = *rng.pick(&[0usize, 0, 2, 4, 8, 9, 12]);
+      let head = format!("{}{}{}@", if kind == "dt" { dt_head(rng) } else { t_head(rng) }, if flen > 0 { "." } else { "" }, digits(rng, flen));
+      group(&mut gs, "zone-name", kind, &head, &w, "");
+    }
+  }
+  // ---- 4. dates (short texts: a conversion may confuse those as well)
+  for _ in 0..(4 * reps) {
+    let y = *rng.pick(&["2021", "-2021", "123456789", "-999999999", "0001", "10000"]);
+    let tails = ["28", "29", "30", "31", "00", "01"];
+    let i = rng.below(4) as usize;
+    group(&mut gs, "date:day", "date", &format!("{}-{:02}-", y, rng.range(1, 12)), &[tails[i].to_string(), tails[i + 1].to_string(), tails[i + 2].to_string()], "");
+    let m = three_digit_tails(rng, 1);
+    group(&mut gs, "date:month", "date", &format!("{}-0", y), &[m[0].clone(), m[1].clone(), m[2].clone()], "-15");
+  }
+  // ---- 5. durations: the last digits of the seconds, the last designator, the months
+  for _ in 0..reps {
+    for k in 1..=8usize {
+      let days = *rng.pick(&["1", "123456789", "18446744073709551615", "999999999999"]);
+      let common = rng.range(0, (9 - k) as i64) as usize;
+      let head = format!("{}P{}DT{}H{}M{}.{}", if rng.chance(1, 3) { "-" } else { "" }, days, rng.range(0, 99), rng.range(0, 99), rng.range(0, 59), digits(rng, common));
+      let tails = three_digit_tails(rng, k);
+      group(&mut gs, "duration:fraction", "dur", &head, &[tails[0].clone(), tails[1].clone(), tails[2].clone()], "S");
+      let nd = rng.range(1, 18) as usize;
+      let head = format!("P{}DT{}H", digits(rng, nd), rng.range(0, 23));
+      let tails = three_digit_tails(rng, k.min(6));
+      group(&mut gs, "duration:minutes", "dur", &head, &[tails[0].clone(), tails[1].clone(), tails[2].clone()], "M");
+    }
+    for head in ["P123456789DT12H30", "-P18446744073709551615DT23H59", "PT99999999999999", "P1DT1H1M1"] {
+      for w in windows(&["M".to_string(), "S".to_string(), "H".to_string(), ".5S".to_string(), "M1S".to_string(), "D".to_string()]) {
+        group(&mut gs, "duration:designator", "dur", head, &w, "");
+      }
+    }
+    for head in ["P768614336404564650Y", "-P768614336404564650Y", "P12345678901234567Y1", "P99Y"] {
+      for w in windows(&["7M".to_string(), "8M".to_string(), "1M".to_string(), "0M".to_string(), "11M".to_string()]) {
+        group(&mut gs, "duration:months", "dur", head, &w, "");
+      }
+    }
+  }
+  // ---- 6. a few leading characters differ, the long rest is common
+  for _ in 0..(3 * reps) {
+    let rest = format!("-10-11T{}.{}{}", t_head(rng), digits(rng, 9), rng.pick(&["@America/Argentina/Buenos_Aires", "+05:30", "Z", "@America/Indiana/Tell_City"]));
+    group(&mut gs, "head:year", "dt", "", &["2021".to_string(), "2022".to_string(), "3021".to_string()], &rest);
+    group(&mut gs, "head:sign", "dt", "", &["2021".to_string(), "-2021".to_string(), "12021".to_string()], &rest);
+    let rest = format!(":{:02}:{:02}.{}{}", rng.range(0, 59), rng.range(0, 59), digits(rng, 9), rng.pick(&["@America/Argentina/Buenos_Aires", "+05:30:15", "@America/Kentucky/Monticello"]));
+    group(&mut gs, "head:hour", "time", "", &["10".to_string(), "11".to_string(), "20".to_string()], &rest);
+    let rest = format!("DT23H59M59.{}S", digits(rng, 9));
+    group(&mut gs, "head:days", "dur", "", &["P1".to_string(), "P2".to_string(), "-P1".to_string()], &rest);
+  }
+  // ---- corpus: the sequences a per-thread cache keyed by the first 32 bytes of the text was first seen on
+  group(&mut gs, "corpus", "dt", "2021-10-11T10:20:30@America/Indiana/", &["Knox".to_string(), "Vevay".to_string(), "Nowhere".to_string()], "");
+  group(&mut gs, "corpus", "dt", "2021-10-11T10:20:30.12345678", &["+05:00".to_string(), "+05:30".to_string(), "+05:99".to_string()], "");
+  group(&mut gs, "corpus", "time", "10:20:30.0625@America/Argentina/", &["Salta".to_string(), "Jujuy".to_string(), "Nowhere".to_string()], "");
+  // ---- 7. the same groups as `@"…"` literals (every fourth)
+  let at: Vec<(&'static str, Vec<Sib>)> = gs.iter().enumerate().filter(|(i, _)| i % 4 == 1).map(|(_, (l, m))| (*l, m.iter().map(|s| Sib { kind: "at", text: s.text.clone() }).collect())).collect();
+  gs.extend(at);
+  // ---- 8. one text, different functions (and a sibling text through the same function)
+  for t in [
+    "2021-02-10", "2021-02-10T10:20:30", "10:20:30", "P1D", "P1Y", "2021-10-11T10:20:30.12345678@America/Indiana/Knox", "10:20:30.123456789012@America/Argentina/Salta",
+    "-999999999-12-31T23:59:59.999999999+14:59:59", "-P18446744073709551615DT23H59M59.999999999S",
+  ] {
+    let ks: Vec<&'static str> = vec!["date", "dt", "time", "dur", "at"];
+    for i in 0..ks.len() {
+      gs.push(("one-text-different-functions", vec![Sib { kind: ks[i], text: t.to_string() }, Sib { kind: ks[(i + 1) % 5], text: t.to_string() }, Sib { kind: ks[(i + 2) % 5], text: t.to_string() }]));
+    }
+  }
+  gs.retain(|(_, m)| m.iter().all(|s| !has_forbidden(&s.text)));
+  gs
+}
+
+fn run_siblings(rep: &mut Report, model: &mut Model, rng: &mut Rng, thorough: bool) {
+  let groups = sibling_groups(rng, thorough);
+  // the zone oracle, asked in a thread of its own with a short text
+  let mut zone_known: std::collections::HashMap<String, bool> = std::collections::HashMap::new();
+  let mut reqs: Vec<String> = vec![];
+  for (_, members) in &groups {
+    for s in members {
+      let known = match s.text.find('@') {
+        Some(i) => {
+          let name = s.text[i + 1..].to_string();
+          *zone_known.entry(name.clone()).or_insert_with(|| feel_fresh(&format!("date and time(\"2021-01-15T12:00:00@{}\")", name)).starts_with("(dt"))
+        }
+        None => true,
+      };
+      reqs.push(format!("(c14 lit {} {} {})", s.kind, known, Sexp::str(&s.text)));
+    }
+  }
+  let answers = model.ask_batch(&reqs);
+  const ORDER: [usize; 5] = [0, 1, 0, 2, 1];
+  for (gi, (label, members)) in groups.iter().enumerate() {
+    let spec: Vec<String> = (0..3).map(|k| answers[3 * gi + k].clone()).collect();
+    let exprs: Vec<String> = members.iter().map(sib_expr).collect();
+    let seq_text = format!("[{}]", ORDER.iter().map(|i| exprs[*i].clone()).collect::<Vec<_>>().join(", "));
+    // five evaluations one after the other in this thread, then all five in one expression
+    let separate: Vec<String> = ORDER.iter().map(|i| norm(&feel(&exprs[*i]))).collect();
+    let together: Vec<String> = feel_list(&seq_text).iter().map(|s| norm(s)).collect();
+    let fresh: Vec<String> = exprs.iter().map(|e| norm(&feel_fresh(e))).collect();
+    let want: Vec<String> = ORDER.iter().map(|i| spec[*i].clone()).collect();
+    let len = members.iter().map(|s| s.text.chars().count()).max().unwrap_or(0);
+    rep.hit(&format!("siblings:{}", label));
+    rep.hit(&format!("siblings-length:{}", if len < 20 { "below 20" } else if len <= 32 { "20..32" } else if len <= 45 { "33..45" } else { "46 and more" }));
+    for (p, i) in ORDER.iter().enumerate() {
+      rep.case(&format!("siblings {} {} {} {}", gi, p, members[*i].kind, members[*i].text), true);
+      rep.hit(if want[p] == "null" { "siblings-outcome:null" } else { "siblings-outcome:value" });
+    }
+    if members.iter().any(|s| s.text.contains('@') && (s.kind == "time" || s.kind == "at")) && (separate.iter().chain(fresh.iter()).any(|o| o == "panic")) {
+      // reading a time in a named zone looks up today's offset there (finding F6)
+      rep.disagree(Kind::ImplVsSpec, "literal_exact", "C14 time literal in a named zone: today's local time does not exist or is ambiguous (panic)", &seq_text, &separate.join(" "), &want.join(" "));
+      continue;
+    }
+    for (how, got) in [("evaluated one after the other", &separate), ("evaluated in one list expression", &together)] {
+      if got == &want {
+        continue;
+      }
+      if got.len() != want.len() {
+        rep.disagree(Kind::ImplVsSpec, "siblings", "C14 siblings: a sequence of literals does not evaluate to a list of their values", &seq_text, &got.join(" "), &want.join(" "));
+        continue;
+      }
+      let p = (0..5).find(|p| got[*p] != want[*p]).unwrap();
+      let i = ORDER[p];
+      let sig = if (0..3).any(|j| j != i && spec[j] != spec[i] && got[p] == spec[j]) {
+        "C14 siblings: a literal evaluated after a literal that shares its beginning (or its end) gets that literal's value, not the one its own text denotes"
+      } else if fresh[i] == spec[i] || (0..5).any(|q| ORDER[q] == i && got[q] == spec[i]) {
+        "C14 siblings: what a literal denotes depends on the literals evaluated before it"
+      } else {
+        "C14 siblings: a literal does not denote what the specification gives for its text"
+      };
+      rep.disagree(Kind::ImplVsSpec, "siblings", sig, &seq_text, &format!("{}: {}", how, got.join(" ")), &want.join(" "));
+    }
+    for k in 0..3 {
+      if fresh[k] != spec[k] && separate == want {
+        rep.disagree(Kind::ImplVsSpec, "siblings", "C14 siblings: a literal evaluated in a thread of its own does not denote what the specification gives for its text", &exprs[k], &fresh[k], &spec[k]);
+      }
+    }
+    if gi % 97 == 5 && rep.samples.len() < 12 {
+      rep.sample(json!({"sequence": seq_text, "values": separate, "specification": want}));
+    }
+  }
+  rep.extra.insert("sibling_groups".into(), json!(groups.len()));
+}
+
 pub fn run(cfg: &Cfg) -> Report {
   match guarded(|| run_inner(cfg)) {
     Ok(r) => r,
@@ -830,7 +1120,7 @@ pub fn run(cfg: &Cfg) -> Report {
 fn run_inner(cfg: &Cfg) -> Report {
   let mut rep = Report::new(
     "C14",
-    "temporal literals through date(), time(), date and time(), duration(), @\"…\" and string(): valid values written by the harness (years stratified over ±999999999, every whole-minute offset −14:59…+14:59, fractions of 0…9 and more digits with adversarial patterns, known zone names, all 15 component patterns of days-and-time durations with normalisation-needing and maximal components, years-and-months durations up to i64 months), the invalid classes named by the property, every single-character insertion/replacement/deletion/swap over a 27-literal corpus, and values only constructors build. Non-trivial: every case (distinct by kind and text).",
+    "temporal literals through date(), time(), date and time(), duration(), @\"…\" and string(): valid values written by the harness (years stratified over ±999999999, every whole-minute offset −14:59…+14:59, fractions of 0…9 and more digits with adversarial patterns, known zone names, all 15 component patterns of days-and-time durations with normalisation-needing and maximal components, years-and-months durations up to i64 months), the invalid classes named by the property, every single-character insertion/replacement/deletion/swap over a 27-literal corpus, values only constructors build, and `siblings`: groups of three literals of 10…70 characters that differ only in their last 1…8 characters (fraction digits, sign/hours/minutes/seconds of the offset, the tail of a zone name among IANA names of one directory, the last designator or digits of a duration), in a few leading characters, or only in the function they are given to, evaluated in the order A, B, A, C, B in one thread (five evaluations, then one list expression) with every answer judged against the Lean specification of its own text. Non-trivial: every case (distinct by kind and text).",
   );
   if probe_if_requested() {
     return rep;
@@ -1178,6 +1468,11 @@ fn run_inner(cfg: &Cfg) -> Report {
         rep.disagree(Kind::ImplVsSpec, "time_from_numbers", sig, &e, &o, &want);
       }
     }
+  }
+  // ---- literals sharing a long prefix, one after the other in one thread (own random stream)
+  {
+    let mut srng = Rng::new(cfg.seed ^ 0x51B1_1265);
+    run_siblings(&mut rep, &mut model, &mut srng, thorough);
   }
   rep.exhaustive = true;
   rep.model_requests = model.requests;
